@@ -88,6 +88,17 @@ for _src, _want, _why in (
         ("module a { func who() { return \"a\" } }\nmodule b { func who() { return \"b\" } }\nr = []\nfor m in [a, b] { r += m.who() }\nr", "[s:61,s:62]", "a member call through a loop variable"),
         ("func d(x) { defer show(x) }\nr = []\nfunc show(v) { r += v }\nd(1)\nshow = func(v) { r += v * 100 }\nd(2)\nr", "[i:1,i:200]", "a deferred call by name takes the function bound when the defer statement runs")):
     EXPECT.append({"src": _src, "field": "result", "want": _want, "why": _why})
+# a function's own name is an ordinary binding of the scope that declares it: the body reaches it by reference
+for _src, _want, _why in (
+        ("func a() { a = 5 }\na()\na", "i:5", "an assignment to the function's own name inside its body updates the declaring scope's binding"),
+        ("func a() { return func() { a = 6 } }\na()()\na", "i:6", "... also from a closure made in the body"),
+        ("func f(n) { if n == 0 { return \"old\" }; return f(n - 1) }\ng = f\nfunc f(n) { return \"new\" }\ng(1)", "s:6e6577",
+         "a recursive call by name takes the binding the declaring scope has at the time of the call"),
+        ("func f() { return 1 }\ng = f\nf = 7\nfunc h() { return f }\n[g(), h()]", "[i:1,i:7]", "rebinding the name outside does not touch the function value held elsewhere"),
+        ("func outer() { func inner() { inner = 3; return 0 }; inner(); return inner }\nouter()", "i:3", "the same one level down"),
+        ("func f() { var f = 2; return f }\n[f(), f()]", "[i:2,i:2]", "a var of the function's own name inside the body is local to the invocation"),
+        ("func f() { f = 2 }\nfunc g() { f() }\ng()\nf", "i:2", "the assignment happens in the declaring scope also when the call comes from another function")):
+    EXPECT.append({"src": _src, "field": "result", "want": _want, "why": _why})
 
 
 def run(tier, seed, replay=None):
